@@ -34,6 +34,7 @@ def run(repo: Repo, chk: Check) -> None:
     static_size(repo, chk)
     lifetime(repo, chk)
     descriptor(repo, chk)
+    dynamic_sizes(repo, chk)
 
 
 # --------------------------------------------------------------------------- allocation size
@@ -253,9 +254,16 @@ def lifetime(repo: Repo, chk: Check) -> None:
         "gets memory.capacity; buffers are partitioned by memory space",
         floor=6,
     )
-    apps = [s for s in fl.calls("append") if s.reachable and norm.match(T("uses[$k].append($b)"), s.node) is not None]
+    # the use table is recognised by its shape (a dict of lists keyed by the top-level op of a use), not by its name
+    apps = []
+    for s in fl.calls("append"):
+        m = norm.match(T("$u[$k].append($b)"), s.node) if s.reachable else None
+        if m is not None and isinstance(m["u"], ast.Name) and any(
+                isinstance(d, (ast.Dict, ast.DictComp)) or (isinstance(d, ast.Call) and callee_name(d) in ("defaultdict", "dict")) for d in fl.alldefs.get(m["u"].id, [])):
+            apps.append(s)
     if not apps:
         raise AnalysisError(f"{f.where}: recording of uses not found")
+    uses_name = apps[0].node.func.value.value.id  # type: ignore[attr-defined]
     top = all(depends_on(fl.cone(s.node.func.value.slice, s, inline=0), "get_top_level_op($_)") for s in apps)  # type: ignore[attr-defined]
     chk.result(top, "C11.lifetime", f"{f.key}:top-level", apps[0].where(), "every use is mapped to its enclosing top-level op",
                "a use is recorded without mapping it to its top-level op: uses nested in loops do not extend the lifetime")
@@ -321,11 +329,14 @@ def lifetime(repo: Repo, chk: Check) -> None:
         outer = [l for l in s.loops if isinstance(l, ast.For)]
         if outer and norm.match(T("enumerate($f.body.block.ops)"), outer[0].iter) is not None and isinstance(outer[0].target, ast.Tuple):
             iv = outer[0].target.elts[0].id  # type: ignore[attr-defined]
-            oku = oku or (ast.unparse(s.node.value) == iv and bool(has_fact(s, ["$o in uses"])))
+            oku = oku or (ast.unparse(s.node.value) == iv and bool(has_fact(s, [f"$o in {uses_name}"])))
     chk.result(oku, "C11.lifetime", f"{f.key}:end-time", upd[0].where() if upd else f.where, "end_time := index of each top-level op that uses the buffer")
     # pointers
-    ptr = [s for s in fl.stmts(ast.Assign) if s.reachable and isinstance(s.node.targets[0], ast.Subscript) and ast.unparse(s.node.targets[0].value) == "pointer_result"]
+    # any table store whose value adds a memory's start address is the pointer hand-out
+    ptr = [s for s in fl.stmts(ast.Assign) if s.reachable and isinstance(s.node.targets[0], ast.Subscript) and isinstance(s.node.targets[0].value, ast.Name)
+           and (norm.contains(fl.cone(s.node.value, s, inline=0), T("$m.start")) or "pointer" in ast.unparse(s.node.targets[0].value))]
     okp = any(norm.any_match(["$off + $m.start", "$m.start + $off"], s.node.value) is not None for s in ptr)
+    ptr_tables = {ast.unparse(s.node.targets[0].value) for s in ptr}
     chk.result(okp, "C11.lifetime", f"{f.key}:pointer", ptr[0].where() if ptr else f.where, "pointer = solver offset + memory.start",
                "the pointer handed out is no longer `solver offset + memory.start`")
     probs = [s for s in fl.calls("Problem") if s.reachable]
@@ -338,7 +349,7 @@ def lifetime(repo: Repo, chk: Check) -> None:
         okm = okm or depends_on(sub, "$b[$x.id].memory_space == $m.attribute")
     chk.result(okm, "C11.lifetime", f"{f.key}:per-memory", probs[0].where() if probs else f.where, "each memory space is solved for its own buffers only")
     # replace uses the pointer of this buffer
-    rep = [s for s in fl.calls("from_int_and_width") if s.reachable and s.loops and s.node.args and depends_on(s.node.args[0], "pointer_result[$b.id]")]
+    rep = [s for s in fl.calls("from_int_and_width") if s.reachable and s.loops and s.node.args and any(depends_on(s.node.args[0], f"{t}[$b.id]") for t in ptr_tables)]
     chk.result(bool(rep), "C11.lifetime", f"{f.key}:own-pointer", rep[0].where() if rep else f.where, "each alloc is replaced by the pointer computed for its own buffer id")
 
 
@@ -379,3 +390,37 @@ def descriptor(repo: Repo, chk: Check) -> None:
     am = [s for s in fl.stmts(ast.Assign) if isinstance(s.node.targets[0], ast.Name) and s.node.targets[0].id == aligned]
     chk.result(any(ast.unparse(s.node.value) == ptr and has_fact(s, ["$a is None"], {"a": aligned}) for s in am), "C11.descriptor", f"{f.key}:aligned-default", f.where,
                "the aligned pointer defaults to the pointer only when none was given")
+
+
+# --------------------------------------------------------------------------- dynamic size operands
+def dynamic_sizes(repo: Repo, chk: Check) -> None:
+    chk.rule(
+        "C11.dynamic-sizes",
+        "the alloc's dynamic size operands (one per DYNAMIC dimension, in order) are paired with the shape: walking the shape, a DYNAMIC entry "
+        "takes the next dynamic operand from the front, a static entry a constant of that entry",
+        floor=2,
+    )
+    f, fl = flow_of(repo, chk, M2S, "AllocOpRewrite.match_and_rewrite")
+    apps = [s for s in fl.calls("append") if s.reachable and any(isinstance(l, ast.For) and norm.contains(l.iter, T("$a.memref.type.shape")) for l in s.loops)]
+    dyn_ok = stat_ok = False
+    where = f.where
+    for s in apps:
+        arg = s.node.args[0]
+        for alt in s.state.alts:
+            facts = [x for x in alt.facts.values() if x.kind == "atom"]
+            is_dyn = any(norm.any_match(["$e == DYNAMIC_INDEX", "$e.data == DYNAMIC_INDEX", "$e is DYNAMIC_INDEX"], x.expr) is not None for x in facts)
+            not_dyn = any(norm.any_match(["$e != DYNAMIC_INDEX", "$e.data != DYNAMIC_INDEX"], x.expr) is not None for x in facts)
+            cone = fl.cone(arg, s, inline=0)
+            if is_dyn:
+                where = s.where()
+                pops = [n for n in ast.walk(arg) if isinstance(n, ast.Call) and callee_name(n) == "pop"]
+                front = bool(pops) and all(len(n.args) == 1 and isinstance(n.args[0], ast.Constant) and n.args[0].value == 0 for n in pops)
+                from_dyn = norm.contains(cone, T("$a.dynamic_sizes")) or any(
+                    norm.contains(d, T("$a.dynamic_sizes")) for nm in norm.free_names(arg) for d in fl.alldefs.get(nm, []))
+                dyn_ok = dyn_ok or (front and from_dyn)
+            if not_dyn and (norm.contains(cone, T("ConstantOp.from_int_and_width($s.data, $t)")) or norm.contains(cone, T("$c.from_int_and_width($s.data, $t)"))):
+                stat_ok = True
+    chk.result(dyn_ok, "C11.dynamic-sizes", f"{f.key}:dynamic-entry", where, "a DYNAMIC shape entry consumes the next dynamic size operand (front of the list)",
+               "a DYNAMIC shape entry is not paired with the next dynamic size operand in order: sizes of different dimensions are exchanged")
+    chk.result(stat_ok, "C11.dynamic-sizes", f"{f.key}:static-entry", where, "a static shape entry becomes a constant of that entry",
+               "static shape entries no longer become constants of their own value")
